@@ -80,7 +80,13 @@ def handleStep (ops heads wss cmd : String) : Option String := do
     let r := exec s c
     let evs := String.join (r.events.map showEvent)
     let w := lookup r.state.wss c.ws
-    let d := match w with | some w => toString w.disk | none => "-"
+    -- a checkout that was not preceded by a snapshot although the disk differed from `tree_state`
+    -- (workspace absent from the loaded view) leaves a mixture the opaque trees cannot name
+    let w0 := lookup s.wss c.ws
+    let dirty := match w0 with | some w0 => w0.disk != w0.tree | none => false
+    let hasW := r.events.any (fun (e : Event) => match e with | Event.write _ _ => true | _ => false)
+    let hasS := r.events.any (fun (e : Event) => match e with | Event.publish _ OpKind.snapshot => true | _ => false)
+    let d := if dirty && hasW && !hasS then "?" else match w with | some w => toString w.disk | none => "-"
     let o := match w with
       | some w =>
         if w.op < s.ops.length then s!"old:{w.op}"
